@@ -99,6 +99,26 @@ MUTANTS = [
      "                ess = effective_sample_size(samples.log_weights(0.5 * (beta + samples.beta)))\n"),
     ("c18-resume-dup", ["C18"], S + "samplers/smc/base.py",
      "        if store_sample_history and not resumed:", "        if store_sample_history:"),
+    # ---- C19
+    ("c19-auto-no-finally", ["C19"], S + "aspire.py",
+     "        try:\n            yield self\n        finally:\n            if prev is None:\n                if hasattr(self, \"_checkpoint_defaults\"):\n                    delattr(self, \"_checkpoint_defaults\")\n            else:\n                self._checkpoint_defaults = prev",
+     "        yield self\n        if prev is None:\n            if hasattr(self, \"_checkpoint_defaults\"):\n                delattr(self, \"_checkpoint_defaults\")\n        else:\n            self._checkpoint_defaults = prev"),
+    ("c19-auto-keeps-when-no-prev", ["C19"], S + "aspire.py",
+     "            if prev is None:\n                if hasattr(self, \"_checkpoint_defaults\"):\n                    delattr(self, \"_checkpoint_defaults\")\n            else:",
+     "            if prev is None:\n                pass\n            else:"),
+    ("c19-auto-nested-restores-none", ["C19"], S + "aspire.py",
+     "            else:\n                self._checkpoint_defaults = prev\n\n    def enable_pool",
+     "            else:\n                self._checkpoint_defaults = dict(prev, saved_config=False)\n\n    def enable_pool"),
+    ("c19-pool-close-always", ["C19"], S + "utils.py",
+     "        if self.close_pool:\n            logger.debug(\"Closing pool\")", "        if self.close_pool or exc_type is not None:\n            logger.debug(\"Closing pool\")"),
+    ("c19-pool-restore-only-on-success", ["C19"], S + "utils.py",
+     "        self.aspire_instance.log_likelihood = self.original_log_likelihood\n        self.aspire_instance.log_prior = self.original_log_prior\n        if self.close_pool:",
+     "        if exc_type is None:\n            self.aspire_instance.log_likelihood = self.original_log_likelihood\n        self.aspire_instance.log_prior = self.original_log_prior\n        if self.close_pool:"),
+    ("c19-pool-prior-wrong-original", ["C19"], S + "utils.py",
+     "        self.aspire_instance.log_prior = self.original_log_prior\n        if self.close_pool:",
+     "        if self.parallelize_prior:\n            self.aspire_instance.log_prior = self.original_log_likelihood\n        if self.close_pool:"),
+    ("c19-pool-join-missing", ["C19"], S + "utils.py",
+     "            self.pool.close()\n            self.pool.join()", "            self.pool.close()"),
     # ---- C13
     ("c13-none-sentinel", ["C13"], S + "utils.py",
      "        if value == \"__none__\":\n            return None", "        if value == \"__none__\":\n            return \"None\""),
